@@ -202,7 +202,7 @@ pub fn run(ctx: &Ctx) -> PropResult {
     wls.push(Workload::cases("offset_local_under_a_changing_zone", ctx.count(3_000, 30_000), |rec, _, rng| super::localzone::zone_switch_case(rec, rng, "C13")));
     let out = run_workloads(ctx, wls);
     let mut meta = PropMeta::default();
-    meta.rule = "write: local instants in years 0001–9999 (both ends ±2 d, month ends, second/centisecond boundaries, uniform) x whole-minute offsets (0, ±1 min, ±23:59, half/quarter hours, uniform) x 5 precisions; the output must be accepted by a hand-written recogniser of the RFC 3339 date-time ABNF, carry exactly the precision's fraction digits, and denote the value's instant truncated to the precision and its offset. read: ABNF-generated timestamps (valid calendar date, every fraction length 0..=40 x {all 0, all 9, random}, Z / ±hh:mm incl. -00:00 and ±23:59) through parse_rfc3339 and FromStr — instant, nanoseconds (fraction truncated to 9 digits) and offset must match the reference reader; single-field mutations (month 00/13+, day 00/32+/> month length, Feb 29 in a common year, hour 24+, minute 60+, offset hour 24+, offset minute 60+) must be rejected. Not judged: second 60, lower-case t/z, wrong separators, year 0000. Every case non-trivial; distinct by hash of the text / (value, offset, precision).".into();
+    meta.rule = "write: local instants in years 0001–9999 (both ends ±2 d, month ends, second/centisecond boundaries, uniform) x whole-minute offsets (0, ±1 min, ±23:59, half/quarter hours, uniform) x 5 precisions; the output must be accepted by a hand-written recogniser of the RFC 3339 date-time ABNF, carry exactly the precision's fraction digits, and denote the value's instant truncated to the precision and its offset. read: ABNF-generated timestamps (valid calendar date, every fraction length 0..=40 x {all 0, all 9, random}, Z / ±hh:mm incl. -00:00 and ±23:59) through parse_rfc3339 and FromStr — instant, nanoseconds (fraction truncated to 9 digits) and offset must match the reference reader; single-field mutations (month 00/13+, day 00/32+/> month length, Feb 29 in a common year, hour 24+, minute 60+, offset hour 24+, offset minute 60+) must be rejected. Not judged: second 60, lower-case t/z, wrong separators, year 0000. Every case non-trivial; distinct by hash of the text / (value, offset, precision). Sub-second values next to powers of ten on the write side; format_rfc3339 of Offset::Local values under a changing hooked zone.".into();
     meta.required_bins = vec![
         "local-twin/zone-switch-judged",
         "write/Seconds", "write/Centis", "write/Millis", "write/Micros", "write/Nanos", "write/offset-zero", "write/offset-negative", "write/offset-positive",
